@@ -3,10 +3,87 @@ from oracles import geom_o as GO
 from props import _geom
 
 LEVEL = "other"
-DEDUCTIVE = []
-TRUSTED = ["numpy", "scipy KD-tree", "CPython 3.12"]
-ASSUMPTIONS = ["A-real; contacts within 1e-6 of a threshold are undecided", "listed atoms of a structure have distinct coordinates"]
-EXPLANATION = "see DESIGN.md 4/C03"
+_PAIRS = {"module": "rnapolis.annotator", "sidecar": "contracts.annotator_pairs_c",
+          # stage order: a short z3 attempt, then cvc5 (which answers these string/array obligations at once where z3 wanders), then
+          # the usual z3 stages; only `unsat` discharges
+          "opts": {"z3_probe_ms": 400, "cvc5_probe_s": 8, "z3_first_ms": 1000}}
+DEDUCTIVE = [
+    dict(_PAIRS, targets=["detect_cis_trans", "angle_between_vectors@total", "find_pairs@table", "find_pairs@contacts"]),
+    dict(_PAIRS, targets=["find_pairs@labels", "find_pairs@labels_complete", "find_pairs@greedy", "find_pairs@output", "find_pairs@safe"]),
+]
+TRUSTED = [
+    "CPython 3.12 (list / dict / set / tuple / str semantics as encoded by pyvc; dict.fromkeys(xs) as the dict comprehension {x: None for x in xs}; "
+    "`if x:` on an Optional object narrows x to not None; table.get(k, dict()).get(..) on constant tables as a guarded choice of constants)",
+    "scipy.spatial.KDTree(points).query_pairs(r): exactly the set {(i, j): 0 <= i < j < n, sqdist(p_i, p_j) <= r*r} with sqdist the squared Euclidean "
+    "distance, left uninterpreted and shared with the specification (contracts/annotator_c.py ext_kdtree, ext_query_pairs, reused)",
+    "sorted(set of (int, int)): the members, each once, in strictly increasing lexicographic order; sorted(list of (Residue3D, Residue3D, LeontisWesthof)): "
+    "a permutation in which no later element is smaller under the tuple order built on Residue3D.__lt__ (contracts/annotator_pairs_c.py ext_sorted; only "
+    "the consequences written there are used)",
+    "collections.Counter(xs).most_common(): a list of (key, count) with each distinct key of xs once, count >= 1, and count >= 2 exactly when the key occurs at "
+    "two different positions of xs (consequences of 'count = number of occurrences'); NOTHING is assumed about the order of the list (Python documents "
+    "descending counts with ties in first-occurrence order; the proof holds for every order) (ext_counter, ext_most_common)",
+    "rnapolis.tertiary.torsion_angle(a1, a2, a3, a4): a real number depending only on the four atoms (uninterpreted torsion_of, shared with the "
+    "specification; its value is the subject of C18); math.degrees, math.acos, numpy.dot: uninterpreted, shared with the specification; "
+    "numpy.linalg.norm(v): the non-negative n with n*n == v.v",
+    "z3 / cvc5 1.0.3 string, array and quantifier reasoning (only `unsat` discharges; stage order z3 probe -> cvc5 -> z3, see DEDUCTIVE opts)",
+]
+ASSUMPTIONS = [
+    "A-real (floats as reals); thresholds are EPS-sandwiched with EPS = 1e-6: a recorded contact lies inside (50 - EPS, 130 + EPS) degrees, a contact inside "
+    "(50 + EPS, 130 - EPS) must be recorded; cis/trans: torsion inside (-90 + EPS, 90 - EPS) gives 'c', outside [-90 - EPS, 90 + EPS] gives 't' "
+    "('contacts within 1e-6 of a threshold are undecided')",
+    "requires of find_pairs@table/@contacts/@safe: distinct atoms of the residues of the analysed model have distinct coordinates (REQ_DISTINCT; the "
+    "coordinate-keyed dictionaries of find_pairs lose rows otherwise - existing assumption 'listed atoms of a structure have distinct coordinates')",
+    "requires of find_pairs@contacts/@safe: every atom carries the label / auth identifiers of its residue and a residue has at least one of the two "
+    "(REQ_IDS: how the library's readers build Residue3D); Atom.coordinates == numpy.array([x, y, z]) (REQ_COORDS: cached property read as a stored "
+    "attribute); an existing base normal is a non-zero vector (REQ_NORMAL: tertiary.py returns a unit vector; NaN is outside A-real)",
+    "Residue3D.base_normal_vector (cached property) is read as a stored attribute; label / auth identifiers are opaque tokens (only copied and compared)",
+    "`==` / hash of Residue3D and Atom objects met by find_pairs (set `occupied`, set `used_atoms`, Counter keys) is object identity: true when no two "
+    "residue objects of the structure are field-wise equal; for listed atoms implied by REQ_DISTINCT (equal atoms would share coordinates)",
+    "definitional lemmas first_idx_definition, vangle_definition, residue_order_definition (contracts/annotator_c.py): first_idx = least index of an atom "
+    "of that name, vangle = arccos of the normalised dot product, rlt = lexicographic order of (model, chain, number, icode or ' '); "
+    "Residue3D.find_atom, Residue3D.__lt__ and angle_between_vectors are proved to return them (C04 / C11 targets, angle_between_vectors@total here)",
+    "callee contracts used at call sites: Residue3D.find_atom, Residue3D.__lt__ (verified targets of C04), detect_bph_br_classification (verified target of "
+    "C11), detect_cis_trans, angle_between_vectors@total (verified here); detect_saenger@ord is ASSUMED: it re-states the C11 contract of detect_saenger "
+    "(proved there for the enum parameter modelled as the record (name, value)) for the engine's ordinal encoding of an enum member read back from a list",
+    "pinned reference tables: spec/tables.py BASE_EDGES / BASE_DONORS / BASE_ACCEPTORS / RIBOSE_ACCEPTORS / PHOSPHATE_ACCEPTORS / HBOND_MAX / HBOND_ANGLE; "
+    "the code reads its own tables from the real module on every run, a changed entry makes code and pin disagree in a named obligation",
+    "the cis/trans letter is stated for the order (residue_i, residue_j) in which the contact was enumerated; that the C1'-N...N-C1' torsion of the reversed "
+    "order is the same number is geometry (C18) and is not used",
+    "find_pairs is verified as a PREFIX (up to `bph_map = merge_and_clean_bph_br(...)`): `base_pairs` is complete there and is not assigned afterwards "
+    "(visible in the source, not an obligation); merge_and_clean_bph_br and the BasePhosphate / BaseRibose assembly use OrderedSet / defaultdict objects, "
+    "which pyvc does not model",
+]
+EXPLANATION = (
+    "Functions under contract (pyvc, SMT): detect_cis_trans (32 obligations: None iff a C1' / N1-N9 atom is missing, else 'c' iff the torsion is inside "
+    "(-90, 90) degrees, N9 for A/G else N1), angle_between_vectors@total, and find_pairs, cut at its phases. Every phase is a prefix contract on the REAL "
+    "function body (symbolic execution stops in front of `bph_map = ...`); a phase variant gives the loops of the other phases the invariant `true`, so "
+    "its clauses hold for EVERY value of the earlier phases' outputs - nothing is assumed about the state a phase starts from. "
+    "find_pairs@table (phase 0/4, loops over residues / atom names): row k of `coordinates` is the atom named GN[k] of residue GA[k] of the model, a "
+    "listed donor/acceptor name of the pinned tables, present in the residue; the three coordinate-keyed dictionaries map its coordinates to that atom, its "
+    "type and its residue; DISTINCT ROWS ARE DISTINCT (residue, atom) PAIRS (the repaired defect: with `for atom_name in acceptors + donors` the obligation "
+    "ghost.assert[each-atom-name-of-a-residue-is-visited-once] fails) and have distinct coordinates. "
+    "find_pairs@contacts (phase 3, loop over sorted(kdtree.query_pairs(4.0))): every recorded hydrogen bond is a row pair i < j in the KD-tree pair set "
+    "(squared distance <= 4.0^2) of a donor and an acceptor atom (pinned tables) whose atoms fail the label/auth same-residue test and belong to different "
+    "residues, both base normals exist and the contact vector lies inside (50 - EPS, 130 + EPS) degrees off both (angle = the uninterpreted function that "
+    "angle_between_vectors is proved to return); two recorded bonds are two different row pairs; COMPLETENESS: every row pair that definitely is such a "
+    "contact (EPS inside) and involves no phosphate / ribose oxygen name IS recorded, whatever `used_atoms` holds. "
+    "find_pairs@labels (phase 2): every label comes from one recorded bond whose atoms lie on the named edges of the pinned edge table, lower residue "
+    "(Residue3D.__lt__) first, with the letter of detect_cis_trans; one bond never yields the same label twice, so two occurrences of a label come from two "
+    "different bonds - with @contacts and @table: from two DISTINCT donor-acceptor atom contacts. find_pairs@labels_complete: every (edge, edge) "
+    "combination the pinned table gives a recorded bond (both glycosidic frames present) has its label. "
+    "find_pairs@greedy (phase 1, loop over Counter(labels).most_common(), any order): every reported triple is a label occurring at two different "
+    "positions, its class is the LeontisWesthof member spelled by the label; EXCLUSIVITY: no (residue, edge) key is used by two reported pairs; "
+    "MAXIMALITY: every label occurring at two different positions is reported with that class or one of its two (residue, edge) keys is taken by a "
+    "reported pair (`occupied` == exactly the keys of reported pairs, it only grows). "
+    "find_pairs@output (phase 5): base_pairs is sorted(base_base_pairs) (a rearrangement, ordered by residue order of first then second residue) turned "
+    "into BasePair(Residue(label, auth), Residue(label, auth), lw, Saenger of the pinned table). find_pairs@safe: NO exception up to the base-pair list "
+    "(IndexError / KeyError of every table and dictionary lookup, ZeroDivisionError of the angle computation, KeyError of LeontisWesthof[...]: the 18 "
+    "names are exactly {c,t} x {W,H,S}^2). "
+    "Not proved (bounded stand-in decides): that every listed atom present in a residue gets a row (completeness of the atom table; needs the covering "
+    "axiom of the dict.fromkeys comprehension, obligations unstable), hence completeness at the level of structure atoms rather than table rows; O2' "
+    "contacts in the completeness half (excluded by the property: they may be consumed by base-ribose detection); merge_and_clean_bph_br and the "
+    "BasePhosphate / BaseRibose output (C11); real floating point."
+)
 
 
 def bounded(tier, seed):
